@@ -109,7 +109,8 @@ type ChainOpts struct {
 	Coins       map[string]sdk.Coins
 	Mutate      func(a *app.Teleport, gs simapp.GenesisState)
 	NoCommit    bool
-	NoChainName bool // do not set the xibc chain name (genesis import tests)
+	NoChainName bool   // do not set the xibc chain name (genesis import tests)
+	Bond        string // the validator's self-bond in base units (default 1e16)
 }
 
 // NewChain builds a chain with one validator and the given funded accounts.
@@ -150,6 +151,13 @@ func NewChain(o ChainOpts) *Chain {
 	gs[authtypes.ModuleName] = a.AppCodec().MustMarshalJSON(authtypes.NewGenesisState(authtypes.DefaultParams(), genAccs))
 
 	bondAmt := sdk.NewInt(1e16)
+	if o.Bond != "" {
+		b, ok := sdk.NewIntFromString(o.Bond)
+		if !ok {
+			panic("bad bond " + o.Bond)
+		}
+		bondAmt = b
+	}
 	pk, err := cryptocodec.FromTmPubKeyInterface(val.PubKey)
 	must(err)
 	pkAny, err := codectypes.NewAnyWithValue(pk)
